@@ -331,6 +331,26 @@ def judge(case, acc):
             t.gantt_bar_style = {'fill': 'red'}
             t.network_bar_style = {'fill': '#f9f'}
     set_now(case['now'])
+    renderers = {}
+    if case.get('reuse'):
+        # the renderer objects are created (and used once) before the WBS is edited: a later rendering shows the WBS as it
+        # is then, not as it was when the renderer was constructed
+        from pjplan import Task as _Task
+        for R_ in (MermaidGantt, MermaidNetwork, DhtmlxGantt):
+            try:
+                renderers[R_] = R_(s)
+                renderers[R_].to_html()
+            except Exception:
+                renderers.pop(R_, None)
+        ref = tasks[0]
+        extra = _Task(max(t.id for t in tasks) + 50, 'added later', start=ref.start, end=ref.end, estimate=1, spent=0)
+        s.roots.append(extra)
+        case['names'][str(extra.id)] = 'added later'
+        tasks = list(s.tasks)
+        acc.count('reused_renderers')
+
+    def make(R_):
+        return renderers.get(R_) or R_(s)
     names = [t.name for t in tasks]
     fc = frag_class(names)
     hostile = bool(fc)
@@ -362,7 +382,7 @@ def judge(case, acc):
     acc.count('documents')
     sig('gantt')
     try:
-        doc = MermaidGantt(s).to_html()
+        doc = make(MermaidGantt).to_html()
         d = parse_doc(doc)
         got, bad, sect_of = parse_gantt(''.join(d.mermaid))
         exp = collections.Counter((t.id, t.start.replace(second=0, microsecond=0), t.end.replace(second=0, microsecond=0), bool(t.milestone)) for t in tasks)
@@ -385,7 +405,7 @@ def judge(case, acc):
     acc.count('documents')
     sig('network')
     try:
-        doc = MermaidNetwork(s).to_html()
+        doc = make(MermaidNetwork).to_html()
         d = parse_doc(doc)
         got, bad = parse_network(''.join(d.mermaid), {t.id for t in tasks})
         exp = collections.Counter()
@@ -411,7 +431,7 @@ def judge(case, acc):
     acc.count('documents')
     sig('dhtmlx')
     try:
-        doc = DhtmlxGantt(s).to_html()
+        doc = make(DhtmlxGantt).to_html()
         d = parse_doc(doc)
         obj, n_found, err = find_gantt_json(d)
         if True:
@@ -448,7 +468,7 @@ def judge(case, acc):
     # ---------------------------------------------------------------- notebook representation
     for R in (MermaidGantt, MermaidNetwork, DhtmlxGantt):
         try:
-            r = R(s)
+            r = make(R)
             h = r._repr_html_()
             doc = r.to_html()
         except Exception:
@@ -493,7 +513,8 @@ def gen_case(rnd):
             if rnd.random() < 0.5:
                 custom[str(t['id'])] = {rnd.choice(['ID', 'Parent', 'Type', 'Progress', 'Text', 'note', 'Start_date', 'End_Date', 'Open', 'Id']):
                                         rnd.choice(['JIRA-101', '25%', 'x', '</script>', 7, None])}
-    return {'kind': 'viz', 'sched': sc, 'names': names, 'sections': sections, 'now': now, 'styles': rnd.random() < 0.3, 'custom': custom}
+    return {'kind': 'viz', 'sched': sc, 'names': names, 'sections': sections, 'now': now, 'styles': rnd.random() < 0.3, 'custom': custom,
+            'reuse': rnd.random() < 0.2}
 
 
 def run_shard(prop, tier, seed, shard, nshards, budget, acc):
